@@ -60,6 +60,15 @@ FAM = {
                                            ("degree_Fahrenheit", 5.0 / 9.0, 459.67)]),
 }
 FAM["dlany"] = ({}, FAM["dimensionless"][1] + FAM["angle"][1])
+# atoms that can occur in result units: name -> (factor to root, offset, dimensionality)
+ATOM = {}
+for _fam, (_dims, _units) in FAM.items():
+    for _name, _f, _off in _units:
+        if all(ch.isalnum() or ch == "_" for ch in _name):
+            ATOM[_name] = (_f, _off, dict(_dims))
+ATOM["delta_degree_Celsius"] = (1.0, 0.0, {"[temperature]": 1})
+ATOM["delta_degree_Fahrenheit"] = (5.0 / 9.0, 0.0, {"[temperature]": 1})
+
 DIMFAMS = ["length", "time", "mass", "velocity", "force"]
 FIXED_ROLE_FAM = {"A": "angle", "D": "dimensionless", "H": "dlany"}
 
